@@ -214,6 +214,9 @@ qbetype(struct type *t)
 static void emittype(struct type *);
 static void emitname(struct value *);
 static void emitvalue(struct value *);
+#ifdef CPROC_VERIF
+static void vtracedata(struct value *, unsigned long long, int, int);
+#endif
 
 static void
 functemp(struct func *f, struct value *v)
@@ -675,6 +678,9 @@ funclval(struct func *f, struct expr *e)
 		if (d->kind != DECLOBJECT && d->kind != DECLFUNC)
 			error(&tok.loc, "identifier '%s' is not an object or function", d->name);
 		if (d == f->namedecl) {
+#ifdef CPROC_VERIF
+			vtracedata(d->value, d->type->size, d->u.obj.align, d->type->align);
+#endif
 			fputs("data ", stdout);
 			emitname(d->value);
 			printf(" = { b \"%s\", b 0 }\n", f->name);
@@ -1077,6 +1083,26 @@ funcswitch(struct func *f, struct value *v, struct switchcases *c, struct block 
 
 /* emit */
 
+#ifdef CPROC_VERIF
+/* H6-lite: name, size and alignment of the C object a data definition is emitted for */
+static void
+vtracedata(struct value *v, unsigned long long size, int align, int talign)
+{
+	char buf[128];
+	size_t i = 0;
+	const char *s;
+
+	for (s = v->u.name; s && *s && i < sizeof(buf) - 1; ++s) {
+		if (!isalnum((unsigned char)*s) && *s != '_' && *s != '.' && *s != '$')
+			break;
+		buf[i++] = *s;
+	}
+	buf[i] = '\0';
+	vtrace("{\"e\":\"data\",\"name\":\"%s\",\"full\":%d,\"id\":%u,\"size\":%llu,\"align\":%d,\"talign\":%d}",
+		buf, !s || !*s, v->id, size, align, talign);
+}
+#endif
+
 static void
 emitname(struct value *v)
 {
@@ -1413,6 +1439,9 @@ emitdata(struct decl *d, struct init *init)
 	int align;
 
 	align = d->u.obj.align;
+#ifdef CPROC_VERIF
+	vtracedata(d->value, d->type->size, d->u.obj.align, d->type->align);
+#endif
 	for (cur = init; cur; cur = cur->next)
 		cur->expr = eval(cur->expr);
 	if (d->u.obj.storage == SDTHREAD)
